@@ -11,7 +11,7 @@ from .c12 import sig, compact
 from .c13 import file_bytes
 
 I = z3.Int
-BOUNDS = {"quick": [dict(what="observer", K=3, pre=2, to=1), dict(what="saver", K=3, pre=1, to=1)],
+BOUNDS = {"quick": [dict(what="observer", K=3, pre=2, to=1), dict(what="saver", K=3, pre=1, to=1), dict(what="saver-only", K=3, pre=2, to=1)],
           "thorough": [dict(what="observer", K=5, pre=2, to=1), dict(what="observer", K=3, pre=3, to=2), dict(what="saver", K=4, pre=2, to=1),
                        dict(what="observer2", K=3, pre=2, to=1)]}
 
@@ -29,9 +29,9 @@ def run_once(mods, s, what, K, data, val, cache):
             seen.append(bytes(b))
         return b
     reader.read = counting_read
-    obs = [Obs() for _ in range(2 if what == "observer2" else 1)]
+    obs = [Obs() for _ in range(2 if what == "observer2" else 0 if what == "saver-only" else 1)]
     src, saver = reader, None
-    if what == "saver":
+    if what.startswith("saver"):
         saver = W.StreamSaverWorker(reader, filename="stream.wav", export_format=None, cache_size_sec=cache)
         src = saver
         saver.start()
@@ -55,7 +55,7 @@ def judge(what, obs, want, fs_bytes):
                 len(obs["read"]), k, [(i, x[:2]) for i, x in g], [w[:2] for w in want]))
     if [(round(a * thr.SR), round(b * thr.SR)) for _, a, b in obs["detections"]] != [w[:2] for w in want]:
         fails.append("worker detections %s differ from the detections of the prefix %s" % (obs["detections"], [w[:2] for w in want]))
-    if what == "saver":
+    if what.startswith("saver"):
         if fs_bytes is None:
             fails.append("stream file not written")
         else:
@@ -130,7 +130,7 @@ def replay_fn(c):
         finally:
             s.cleanup()
         fb = None
-        if c["what"] == "saver" and os.path.exists("stream.wav"):
+        if c["what"].startswith("saver") and os.path.exists("stream.wav"):
             try:
                 with _wave.open("stream.wav", "rb") as w:
                     fb = (w.readframes(-1), (w.getframerate(), w.getsampwidth(), w.getnchannels()), True)
